@@ -55,6 +55,25 @@ SIM = {
         "rule": "strategies with every combination of the three limits, one live single-order trade per runner (acknowledgement discipline guaranteed by max_live_trade_count=1), random histories with fills / cancels / lapses / SP / close; at every accepted non-forced PLACE/REPLACE the brute-force worst case of position + order (Exposure.tla) is compared with the limits, and the worst-case loss per selection at the end of every update",
         "assumptions": ASSUME_SIM + ["tolerance 0.01 per order in the position", "unacknowledged (PENDING) orders are excluded from exposure by the property's own domain note"],
     },
+    "C02": {
+        "props": ["C02"],
+        "designs": [],
+        "profiles": [{"p_txn": 0.6, "p_force": 0.15, "p_mver": 0.4, "p_replace_dup": 0.15, "p_explimits": 0.7, "p_limits": 0.6, "p_suspend": 0.2, "p_txlimit": 0.25, "p_action": 0.8, "p_cancel": 0.35, "p_replace": 0.3, "p_update": 0.2},
+                     {"p_txn": 0.3, "p_force": 0.05, "p_explimits": 0.5, "p_suspend": 0.1, "sizes": [2.0, 0.001, 0.5, 2.345, 5.0, -1.0], "p_action": 0.8}],
+        "n_quick": 160, "n_thorough": 4000,
+        "rule": "",
+        "assumptions": ASSUME_SIM,
+    },
+    "C18": {
+        "props": ["C18"],
+        "designs": [{"module": "MC_TxnCount", "constants": {"MaxSteps": "6"}, "invariants": ["Inv_TotalsExact", "Inv_HourlyExact", "Inv_UnlimitedNeverBlocked"], "properties": ["Prop_VerdictExact"], "must_reach": ["Reach_Blocked", "Reach_RestartAfterBlock"]},
+                    {"module": "MC_TxnCount", "constants": {"MaxSteps": "8"}, "invariants": ["Inv_TotalsExact", "Inv_HourlyExact", "Inv_UnlimitedNeverBlocked"], "properties": ["Prop_VerdictExact"], "tier": "thorough", "timeout": 1500}],
+        "profiles": [{"p_txlimit": 0.8, "p_two_clients": 0.6, "gaps": [1000, 200, 600000, 3500000, 3600000, 86400000, 1799000, 121], "p_action": 0.85, "p_txn": 0.4, "p_cancel": 0.35, "p_replace": 0.3, "p_suspend": 0.15, "max_orders": 12, "n_updates": (8, 20), "p_force": 0.1},
+                     {"p_txlimit": 1.0, "gaps": [100, 500, 3600000, 1000], "p_action": 0.9, "n_strategies": (2, 2), "max_orders": 12}],
+        "n_quick": 160, "n_thorough": 4000,
+        "rule": "simulation runs whose publish times span hour and day boundaries, clients with transaction limits 0..5 or none (one or two clients), packages of any kind with failures; every call of the control and every handler judged against TxnCount.tla; totals against the instructions the specification says were submitted",
+        "assumptions": ASSUME_SIM + ["simulation mode (simulated clock); the live half with concurrently finishing handlers is decided by the live driver"],
+    },
     "C03": {
         "props": ["C03"],
         "designs": simcore_designs(["Inv_C03_OneInFlight"], ["Prop_C03_Finality"]),
